@@ -1,7 +1,8 @@
 """C05 what validators sign binds the whole message; message ids are never reused.
 
-Two pipelines, one verdict, one evidence file:
+Three pipelines, one verdict, one evidence file:
   C05Sign  SignBinding.tla (family C05): field tables + perturbation lattice, real GetBytesToSign / GetCheckpoint on every obligation;
+  C05Deploy DeployBinding.tla: batch / queued message built, bridge re-deployed, signatures over the bytes of each deployment offered to the real ConfirmBatch / AddMessagesSignatures (E1);
   C05Ids   QueueIds.tla: Put / Replace / Remove / Elect over 2 chains x 4 queue types, replayed on the real consensus keeper (E1)."""
 import copy, json, os, time
 from pipeline import Pipeline, Gen
@@ -25,7 +26,7 @@ class C05Ids(Pipeline):
     driver_pkg = "drivers/queueids"
     driver_test = "TestDriveQueueIds"
     trace_module = "QueueIdsTrace"
-    quick_cap = 2500
+    quick_cap = 1500
     thorough_cap = 40000
     assumptions = [
         "queues are the four queue types the evm module registers, on two activated chains; skyway batches do not use consensus-queue ids",
@@ -89,6 +90,59 @@ class C05Ids(Pipeline):
         return {"ok": bool(c1) and bool(c2), "duplicate_id_noticed": c1, "replace_changing_id_noticed": c2}
 
 
+class C05Deploy(Pipeline):
+    """DeployBinding.tla: the deployment id exercised THROUGH STATE (item built, bridge re-deployed, signatures offered)."""
+    pid = "C05"
+    mc = [("DeployBinding_mc", "DeployBinding_mc", ("quick", "thorough"))]
+    gens = [Gen("DeployBindingGen", "DeployBindingGen_cover", "bfs", tiers=("quick", "thorough"), timeout=600)]
+    driver_pkg = "drivers/queueids"
+    driver_test = "TestDriveDeployBinding"
+    trace_module = "DeployBindingTrace"
+    assumptions = [
+        "deployment ids are compass-eth-a-<n>; a re-deployment is evm.ActivateChainReferenceID with the next smart contract id",
+        "HEAD re-reads the deployment id when a batch confirmation arrives (ConfirmBatch recomputes the checkpoint with ChainInfo.SmartContractUniqueID) "
+        "and keeps the turnstone id a queued message was enqueued with (AddMessageSignature verifies GetBytesToSign of the stored message); both are modelled",
+    ]
+
+    def run(self, tier):
+        orig = vk.write_replay
+        vk.write_replay = lambda pid, n, events, note=None: orig(pid, n + 200, events, note)
+        try:
+            return super().run(tier)
+        finally:
+            vk.write_replay = orig
+
+    def nontrivial(self, evs):
+        return any(e["act"] == "Offer" and e.get("res") == "ok" for e in evs) or any(e["act"] == "Redeploy" for e in evs)
+
+    def post_drive(self, events, tier):
+        seen = {}
+        for e in events:
+            if e["act"] == "Offer":
+                seen.setdefault(e["args"]["item"], set()).add(e["res"])
+        for item in ("batch", "message"):
+            if not {"ok", "refused"} <= seen.get(item, set()):
+                raise vk.Broken("offers for %s never both accepted and refused on the real handlers: %s" % (item, seen.get(item)))
+        if not any(e["act"] == "Offer" and e["res"] == "ok" and e["obs"]["dep"] > 1 for e in events):
+            raise vk.Broken("no signature was accepted after a re-deployment")
+
+    def binding_selftest(self, events, tier):
+        # a stored signature over the bytes of a replaced deployment must be noticed
+        byh = {}
+        for e in events:
+            byh.setdefault(e["h"], []).append(e)
+        for h, evs in byh.items():
+            for k, e in enumerate(evs):
+                if e["act"] == "Offer" and e["res"] == "refused" and e["args"]["item"] == "batch" and e["args"]["over"] < e["obs"]["dep"]:
+                    evs2 = copy.deepcopy(evs[:k + 1])
+                    evs2[k]["res"] = "ok"
+                    evs2[k]["obs"]["sigs"] = evs2[k]["obs"]["sigs"] + [{"item": "batch", "val": e["args"]["val"], "over": e["args"]["over"]}]
+                    v = self.validate(evs2)
+                    c = any(n == "C05.SigBindsDeployment" for n, _, _ in v.monfail)
+                    return {"ok": c, "stale_deployment_signature_noticed": c}
+        return {"ok": False, "why": "no refused stale batch offer to corrupt"}
+
+
 def _load():
     with open(os.path.join(vk.EVIDENCE, "C05.json")) as f:
         return json.load(f)
@@ -96,7 +150,7 @@ def _load():
 
 class C05:
     pid = "C05"
-    parts = (C05Sign(), C05Ids())
+    parts = (C05Sign(), C05Ids(), C05Deploy())
 
     def run(self, tier):
         t0 = time.time()
@@ -104,31 +158,34 @@ class C05:
         for p in self.parts:
             rcs.append(p.run(tier))
             evs.append(_load())
-        a, b = (e["coverage"] for e in evs)
+        a, b, c = (e["coverage"] for e in evs)
         cov = {
-            "states": a["states"] + b["states"],
-            "transitions": a["transitions"] + b["transitions"],
-            "traces_validated_against_impl": a["traces_validated_against_impl"] + b["traces_validated_against_impl"],
-            "samples": a["samples"][:2] + b["samples"][:2],
-            "evaluations": a["evaluations"] + b["evaluations"],
-            "distinct_nontrivial": a["distinct_nontrivial"] + b["distinct_nontrivial"],
+            "states": a["states"] + b["states"] + c["states"],
+            "transitions": a["transitions"] + b["transitions"] + c["transitions"],
+            "traces_validated_against_impl": a["traces_validated_against_impl"] + b["traces_validated_against_impl"] + c["traces_validated_against_impl"],
+            "samples": a["samples"][:2] + b["samples"][:2] + c["samples"][:1],
+            "evaluations": a["evaluations"] + b["evaluations"] + c["evaluations"],
+            "distinct_nontrivial": a["distinct_nontrivial"] + b["distinct_nontrivial"] + c["distinct_nontrivial"],
             "rule": "signing half: one history per obligation of the complete SignBinding lattice (family C05), non-trivial = both digests computed; "
-                    "id half: " + b["rule"],
+                    "id half and deployment-through-state part: " + b["rule"],
             "exhaustive": False,
-            "monitor_failures": a["monitor_failures"] + b["monitor_failures"],
-            "known_finding_hits": dict(a["known_finding_hits"], **b["known_finding_hits"]),
+            "monitor_failures": a["monitor_failures"] + b["monitor_failures"] + c["monitor_failures"],
+            "known_finding_hits": dict(dict(a["known_finding_hits"], **b["known_finding_hits"]), **c["known_finding_hits"]),
             "signing_bytes": a,
             "message_ids": b,
+            "deployment_through_state": c,
         }
         vk.write_evidence("C05", tier, "model_checking", cov, time.time() - t0, violations=sum(e.get("violations", 0) for e in evs),
-                          assumptions=evs[0]["assumptions"] + evs[1]["assumptions"])
+                          assumptions=evs[0]["assumptions"] + evs[1]["assumptions"] + evs[2]["assumptions"])
         return max(rcs)
 
     def replay(self, path):
         with open(path) as f:
             f.readline()
             second = json.loads(f.readline())
-        part = self.parts[1] if second.get("act") == "Init" else self.parts[0]
+        part = self.parts[0]
+        if second.get("act") == "Init":
+            part = self.parts[2] if "dep" in second.get("obs", {}) else self.parts[1]
         return part.replay(path)
 
 
